@@ -72,15 +72,16 @@ func (ArchLinux) ConventionalFileName(info *nfpm.Info) string {
 		pkgrel = 1
 	}
 
-	name := fmt.Sprintf(
+	// only the package name is cleaned of characters a package name may not
+	// have; version and architecture appear as they do in .PKGINFO (a
+	// pkgver may contain characters, '~' for one, that a name may not)
+	return fmt.Sprintf(
 		"%s-%s-%d-%s.pkg.tar.zst",
-		info.Name,
+		validPkgName(info.Name),
 		info.Version+strings.ReplaceAll(info.Prerelease, "-", "_"),
 		pkgrel,
 		info.Arch,
 	)
-
-	return validPkgName(name)
 }
 
 // validPkgName removes any invalid characters from a string
